@@ -758,6 +758,87 @@ def traversal_rule(ctx, rep, rid="TRAV", only=None, floor=56):
 
 
 # ------------------------------------------------------------------------------------------------
+# L-ELIDEUSE: the elision classification of a construct is combined with the operator its meaning requires
+# ------------------------------------------------------------------------------------------------
+ELIDE_USE = {"Optional": "opt", "Star": "opt", "Alternation": "alt", "OrderedChoice": "alt", "Concat": "concat"}
+
+
+def elision_use_rule(ctx, rep, rid="ELIDEUSE"):
+    rep.rule(rid, "AGREEMENT: in GeneralCheck::check_regex (the function that classifies rule-node elision per regex) the arm of each construct "
+                  "whose body may be executed zero times (`[x]`, `x*`) passes the operand's classification through RuleNodeElision::opt, the arms "
+                  "of alternation and ordered choice fold their operands with RuleNodeElision::alt and concatenation with RuleNodeElision::concat "
+                  "(the call may sit in the arm or in a closure the arm hands to an iterator adaptor). TAB shows that the three operators have "
+                  "their path-set meaning; this rule shows that each construct uses the operator of its own path structure - a `x*` classified "
+                  "like `x+` is treated as eliding unconditionally although the path with zero iterations does not elide, and the generated rule "
+                  "function then never opens the rule's node on that path")
+    from .cg import CallGraph
+    lib = ctx.lelwel()
+    G = CallGraph([lib])
+    regex_adt = [a for a in lib.adts if a.endswith("frontend::ast::Regex")]
+    if not regex_adt:
+        raise MissingAnchor("enum frontend::ast::Regex not found")
+    vnames = {v["d"]: v["n"] for v in lib.adts[regex_adt[0]]["variants"]}
+    cands_b = [b for b in user_bodies(lib) if b.name.endswith("GeneralCheck::check_regex") or re.search(r"GeneralCheck(<.*>)?::check_regex$", b.name)]
+    if not cands_b:
+        raise MissingAnchor("frontend::sema::GeneralCheck::check_regex")
+    n = 0
+    for b in cands_b:
+        pr = P(b)
+        disp = None
+        for blk in sorted(b.reachable()):
+            t = b.blocks[blk]["t"]
+            if t["t"] == "switch":
+                e = pr.operand(t["d"])
+                if e[0] == "discr" and e[2].endswith("frontend::ast::Regex") and len(t["arms"]) >= 10:
+                    disp = blk
+                    break
+        if disp is None:
+            raise MissingAnchor("dispatch on ast::Regex in %s" % b.name)
+        t = b.blocks[disp]["t"]
+        arm = {vnames.get(v): tg for v, tg in t["arms"]}
+
+        def ops_in(body, region, depth=0, seen=None):
+            seen = seen if seen is not None else set()
+            out = set()
+            p2 = P(body)
+            for x in region:
+                tt = body.blocks[x]["t"]
+                if tt["t"] != "call":
+                    continue
+                e = p2.call_expr(tt)
+                for nm in (e[1], e[3]):
+                    m = re.search(r"RuleNodeElision::(opt|alt|concat)$", nm or "")
+                    if m:
+                        out.add(m.group(1))
+                if depth < 3:
+                    for a in e[2]:
+                        for y in walk(a):
+                            cid = y[1] if y[0] == "closure" else (y[1][1] if y[0] == "agg" and y[1] and y[1][0] == "closure" else None)
+                            if cid and cid in G.bodies and cid not in seen:
+                                seen.add(cid)
+                                cb = G.bodies[cid]
+                                out |= ops_in(cb, sorted(cb.reachable()), depth + 1, seen)
+            return out
+
+        for V, op in sorted(ELIDE_USE.items()):
+            if V not in arm:
+                rep.violation(rid, "%s|%s|no-arm" % (b.name, V), "%s has no arm of its own for Regex::%s" % (b.name, V), site(b, (disp, 0)))
+                continue
+            tg = arm[V]
+            region = [x for x in b.reachable() if b.dominates(tg, x)]
+            got = ops_in(b, region)
+            n += 1
+            if op in got:
+                rep.ok(rid, "check_regex: arm for Regex::%s applies RuleNodeElision::%s" % (V, op))
+            else:
+                rep.violation(rid, "%s|%s|missing-%s" % (b.name, V, op), "the arm of %s for Regex::%s does not apply RuleNodeElision::%s to the classification of its "
+                              "operand(s) (operators applied in the arm: %s): the construct is classified with the path structure of a different construct"
+                              % (b.name, V, op, ", ".join(sorted(got)) or "none"), site(b, (tg, 0)))
+    rep.count("construct arms compared with their elision operator", n)
+    rep.floor(rid, 5, "construct arms")
+
+
+# ------------------------------------------------------------------------------------------------
 # L-MONO: an analysis table is never updated under a growth test of a *different* table
 # ------------------------------------------------------------------------------------------------
 _TABLE_UPDATE = re.compile(r"(::extend|::insert|::append|::extend_from_slice|::push)$")
